@@ -204,7 +204,10 @@ static void buildPA(const std::string& pts, const std::string& subs, Points& P, 
     // The model knows one frame value; a difference between the two paths shows as a disagreement.
     const bool byIdx = ((pts.size() * 7 + subs.size()) % 3) == 0;
     std::vector<std::string> pl = splitList(pts, ';');
-    if (!byIdx) for (size_t i = 0; i < pl.size(); ++i) P.point(parsePoint(pl[i]));
+    // ... and, when appending, either a fresh element per entry or ONE Point / Channel object refilled and handed over again
+    const bool reuse = ((pts.size() + subs.size()) % 2) == 1;
+    if (!byIdx && reuse) { Point one; for (size_t i = 0; i < pl.size(); ++i) { Point q = parsePoint(pl[i]); one.name(q.name()); one.x(q.x()); one.y(q.y()); one.z(q.z()); one.residual(q.residual()); P.point(one); } }
+    else if (!byIdx) for (size_t i = 0; i < pl.size(); ++i) P.point(parsePoint(pl[i]));
     else for (size_t i = pl.size(); i-- > 0; ) {
         Point decoy; decoy.name("decoy"); decoy.x(9.f); decoy.residual(-1.f);
         P.point(decoy, i);                 // something else sits at the position first: the indexed setter must REPLACE it
@@ -217,9 +220,11 @@ static void buildPA(const std::string& pts, const std::string& subs, Points& P, 
         if (sl[k] != "e") {
             std::vector<std::string> cl = split(sl[k], ';');
             std::vector<Channel> cs;
+            Channel one;
             for (size_t i = 0; i < cl.size(); ++i) {
                 std::vector<std::string> t = split(cl[i], ':');
-                Channel c; c.name(unx(t[0])); c.data(unhex8(t[1])); cs.push_back(c);
+                if (reuse) { one.name(unx(t[0])); one.data(unhex8(t[1])); cs.push_back(one); }
+                else { Channel c; c.name(unx(t[0])); c.data(unhex8(t[1])); cs.push_back(c); }
             }
             if (!byIdx) for (size_t i = 0; i < cs.size(); ++i) sf.channel(cs[i]);
             else for (size_t i = cs.size(); i-- > 0; ) {
@@ -278,6 +283,13 @@ static int runScript(const char* scriptPath, const char* outPath, int tid) {
     std::mt19937 rng((unsigned)(g_yield_seed * 7919 + tid));
     std::unique_ptr<Open> cur;
     std::map<std::string, Frame> vars;
+    // references into a caller's frame taken when it was built (a caller that keeps `SubFrame&` / `Point&` across hand-overs)
+    std::map<std::string, std::vector<SubFrame*> > keptSub; std::map<std::string, std::vector<Point*> > keptPt;
+    auto capture = [&](const std::string& v) {
+        keptSub[v].clear(); keptPt[v].clear(); Frame& f = vars[v];
+        for (size_t k = 0; k < f.analogs().nbSubframes(); ++k) keptSub[v].push_back(&f.analogs_nonConst().subframe_nonConst(k));
+        for (size_t i = 0; i < f.points().nbPoints(); ++i) keptPt[v].push_back(&f.points_nonConst().point_nonConst(i));
+    };
     Parameter pk("P", "");     // the parameter the pset ops work on (kept across ops; pnew starts a fresh one)
     ParametersNS::Parameters sp; Group sg;      // stand-alone parameter classes (ops `sa ...`)
     std::string line; size_t n = 0;
@@ -295,22 +307,33 @@ static int runScript(const char* scriptPath, const char* outPath, int tid) {
         else if (op == "new") { res = classify([&]() { cur.reset(new Open()); }); }
         else if (op == "load") { cur.reset(); res = classify([&]() { cur.reset(new Open(t[1])); }); }
         else if (op == "specdecode" || op == "lwcheck") { std::fprintf(out, "R skipped\n"); continue; }
-        else if (op == "mkframe") { vars[t[1]] = makeFrame(t[2], t[3]); continue; }
+        else if (op == "mkframe") { vars[t[1]] = makeFrame(t[2], t[3]); capture(t[1]); continue; }
         else if (op == "cpframe") {   // cpframe <v> <i>: the caller takes a by-value copy of stored frame i (the copy shares its payload handles)
-            if (cur) { size_t i = std::strtoull(t[2].c_str(), 0, 10); if (i < cur->data().nbFrames()) vars[t[1]] = cur->data().frame(i); }
+            if (cur) { size_t i = std::strtoull(t[2].c_str(), 0, 10); if (i < cur->data().nbFrames()) { vars[t[1]] = cur->data().frame(i); keptSub[t[1]].clear(); keptPt[t[1]].clear(); } }
             continue;
         }
         else if (op == "refill") {    // refill <v> <pts> <subs>: the caller re-uses its frame object as a template: add(points, analogs) gives it new content
-            Points P; Analogs A; buildPA(t[2], t[3], P, A); vars[t[1]].add(P, A); continue;
+            Points P; Analogs A; buildPA(t[2], t[3], P, A); vars[t[1]].add(P, A); capture(t[1]); continue;
         }
         else if (op == "cmut") {
             Frame& f = vars[t[1]];
-            if (t[2] == "pt") { size_t i = std::strtoull(t[3].c_str(), 0, 10); Point& p = f.points_nonConst().point_nonConst(i); p.x(unhex8(t[4])); p.y(unhex8(t[5])); p.z(unhex8(t[6])); p.residual(unhex8(t[7])); }
-            else if (t[2] == "addpt") { f.points_nonConst().point(parsePoint(t[3])); }
+            if (t[2] == "pt") {
+                // half of the edits go through a REFERENCE TAKEN WHEN THE FRAME WAS BUILT (before any hand-over), half through a fresh accessor call
+                size_t i = std::strtoull(t[3].c_str(), 0, 10);
+                std::vector<Point*>& kp = keptPt[t[1]];
+                Point& p = (i % 2 == 0 && i < kp.size()) ? *kp[i] : f.points_nonConst().point_nonConst(i);
+                p.x(unhex8(t[4])); p.y(unhex8(t[5])); p.z(unhex8(t[6])); p.residual(unhex8(t[7]));
+            }
+            else if (t[2] == "addpt") { f.points_nonConst().point(parsePoint(t[3])); capture(t[1]); }
             else if (t[2] == "ptname") { size_t i = std::strtoull(t[3].c_str(), 0, 10); try { f.points_nonConst().point_nonConst(i).name(unx(t[4])); } catch (std::exception&) {} }
             else if (t[2] == "chn") { size_t k = std::strtoull(t[3].c_str(), 0, 10); try { f.analogs_nonConst().subframe_nonConst(k).channel_nonConst(unx(t[4])).data(unhex8(t[5])); } catch (std::exception&) {} }
             else if (t[2] == "ptn") { try { f.points_nonConst().point_nonConst(unx(t[3])).x(unhex8(t[4])); } catch (std::exception&) {} }
-            else if (t[2] == "ch") { size_t k = std::strtoull(t[3].c_str(), 0, 10), i = std::strtoull(t[4].c_str(), 0, 10); f.analogs_nonConst().subframe_nonConst(k).channel_nonConst(i).data(unhex8(t[5])); }
+            else if (t[2] == "ch") {
+                size_t k = std::strtoull(t[3].c_str(), 0, 10), i = std::strtoull(t[4].c_str(), 0, 10);
+                std::vector<SubFrame*>& ks = keptSub[t[1]];
+                SubFrame& sf = ((k + i) % 2 == 0 && k < ks.size()) ? *ks[k] : f.analogs_nonConst().subframe_nonConst(k);
+                sf.channel_nonConst(i).data(unhex8(t[5]));
+            }
             continue;
         }
         else if (op == "sa") {        // the parameter classes used on their own (not reachable through a c3d object)
